@@ -61,6 +61,9 @@ func genAmount(r *vc.Rand) *big.Int {
 }
 
 var accts = []string{"world", "alice", "users:001", "bank-eu:fees", "a:b:c:d", "_x", "0"}
+
+// metadata targets are not validated on every path (DELETE /accounts/{address}/metadata/{key}, bulk): any string can be logged
+var metaTargets = []string{"alice", "users:001", "quo\"te", "back\\slash", "<tag>&amp;", "line\nbreak", "tab\there", "été", "\u2028", "", " spaced ", "\"", "\\\""}
 var assets = []string{"USD", "EUR/2", "COIN", "BTC/8", "A0/123456"}
 
 // genTime: every way the API produces a timestamp: ParseTime of RFC 3339 text (offsets, fractional digits), Now().
@@ -141,7 +144,7 @@ func genLog(r *vc.Rand, txid *int64) (*ledger.Log, string) {
 		l = ledger.NewRevertedTransactionLog(at, big.NewInt(target), genTx(r, *txid))
 		kind = "REVERTED_TRANSACTION/-"
 	case 2:
-		l = ledger.NewSetMetadataLog(at, ledger.SetMetadataLogPayload{TargetType: ledger.MetaTargetTypeAccount, TargetID: vc.Pick(r, accts), Metadata: genMeta(r)})
+		l = ledger.NewSetMetadataLog(at, ledger.SetMetadataLogPayload{TargetType: ledger.MetaTargetTypeAccount, TargetID: vc.Pick(r, metaTargets), Metadata: genMeta(r)})
 		kind = "SET_METADATA/ACCOUNT"
 	case 3:
 		id := big.NewInt(int64(r.Intn(1000)))
@@ -151,7 +154,7 @@ func genLog(r *vc.Rand, txid *int64) (*ledger.Log, string) {
 		l = ledger.NewSetMetadataLog(at, ledger.SetMetadataLogPayload{TargetType: ledger.MetaTargetTypeTransaction, TargetID: id, Metadata: genMeta(r)})
 		kind = "SET_METADATA/TRANSACTION"
 	case 4:
-		l = ledger.NewDeleteMetadataLog(at, ledger.DeleteMetadataLogPayload{TargetType: ledger.MetaTargetTypeAccount, TargetID: vc.Pick(r, accts), Key: vc.Pick(r, strs)})
+		l = ledger.NewDeleteMetadataLog(at, ledger.DeleteMetadataLogPayload{TargetType: ledger.MetaTargetTypeAccount, TargetID: vc.Pick(r, metaTargets), Key: vc.Pick(r, strs)})
 		kind = "DELETE_METADATA/ACCOUNT"
 	case 5:
 		l = ledger.NewDeleteMetadataLog(at, ledger.DeleteMetadataLogPayload{TargetType: ledger.MetaTargetTypeTransaction, TargetID: big.NewInt(int64(r.Intn(1000))), Key: vc.Pick(r, strs)})
